@@ -69,7 +69,9 @@ Next ==
   \/ \E o \in OrderNames : \E a \in VTags3 : \E b \in VTags3 : \E c \in VTags3 : VRPY(o, a, b, c)
   \/ \E a \in VTags3 : \E b \in VTags3 : \E c \in VTags3 : VEul(a, b, c)
   \/ \E a \in VTags1 : \E dir \in Dirs : \E len \in VLens : VAngVec(a, dir, len)
-  \/ \E o \in Dirs : \E a \in Dirs : \E lo \in VLens : \E la \in VLens :
+  \* (the two-vector frame takes vectors of ordinary length: the product of two tiny lengths is below the library's
+  \*  documented zero-vector threshold, so the tiny axis lengths belong to the axis-angle forms only)
+  \/ \E o \in Dirs : \E a \in Dirs : \E lo \in VLens \ {"1e-9", "2e-7"} : \E la \in VLens \ {"1e-9", "2e-7"} :
         Cross(o, a) # <<0,0,0>> /\ VOA(o, a, lo, la)
   \/ \E ax \in {"x", "y", "z"} : \E a \in VTags1 : \E dir \in Dirs : \E tm \in VTrans : VPose(ax, a, dir, tm)
   \/ \E c \in InterpEntries : \E dt \in DTags : \E st \in STags : \E ws \in BOOLEAN :
